@@ -235,8 +235,14 @@ theorem list8 (T : List UInt32) (h : T.length = 8) : ∃ t0 t1 t2 t3 t4 t5 t6 t7
   match T, h with
   | [t0, t1, t2, t3, t4, t5, t6, t7], _ => exact ⟨t0, t1, t2, t3, t4, t5, t6, t7, rfl⟩
 
-theorem blk_spec (data : List UInt32) (hd : data.length = 16) (r0 : Spec.Regs) (j i : Nat) (hj : j % 16 = 0) (hj64 : j < 64)
-    (hi : i < 16) (s : RS) (h : RInv data r0 j i s) :
+/-- the part of the loop invariant that concerns the rolling window `W` (shared with the `_SHA256_UNROLL2` variant) -/
+structure WInv (data : List UInt32) (n : Nat) (W : List UInt32) (ok : Bool) : Prop where
+  hW : W.length = 16
+  ok : ok = true
+  win : ∀ u, u < n → n ≤ u + 16 → W.getD (u % 16) 0 = (Spec.schedule data).getD u 0
+
+theorem blk_spec (data : List UInt32) (hd : data.length = 16) (j i : Nat) (hj : j % 16 = 0) (hj64 : j < 64)
+    (hi : i < 16) (s : RS) (h : WInv data (j + i) s.W s.ok) :
     (blk data (UInt32.ofNat j) (UInt32.ofNat i) s).2 = (Spec.schedule data).getD (j + i) 0 ∧
     (blk data (UInt32.ofNat j) (UInt32.ofNat i) s).1.W.length = 16 ∧
     (blk data (UInt32.ofNat j) (UInt32.ofNat i) s).1.ok = true ∧
@@ -301,7 +307,7 @@ theorem R_inv (data : List UInt32) (hd : data.length = 16) (r0 : Spec.Regs) (j i
   obtain ⟨T, W, S, ok⟩ := s
   simp only at hT
   subst hT
-  obtain ⟨hv, hWl, hok, hwin⟩ := blk_spec data hd r0 j i hj hj64 hi _ h
+  obtain ⟨hv, hWl, hok, hwin⟩ := blk_spec data hd j i hj hj64 hi _ ⟨h.hW, h.ok, h.win⟩
   have hk : (UInt32.ofNat i + UInt32.ofNat j).toNat < Sha256.K.length := by
     rw [idxK j hj64 i hi, show Sha256.K.length = 64 from by decide]; omega
   obtain ⟨h1, h2, h3, h4, _⟩ := R_step Sha256.K data (UInt32.ofNat j) i hi t0 t1 t2 t3 t4 t5 t6 t7 W S ok hk
